@@ -139,6 +139,11 @@ pub fn check_hex_case(spec: &HexSpec, acc: &str, i: usize, j: usize) -> Result<(
         "range_to" => same_outcome(guarded(|| h[..j].to_vec()), guarded(|| b[..j].to_vec())),
         "range_to_incl" => same_outcome(guarded(|| h[..=j].to_vec()), guarded(|| b[..=j].to_vec())),
         "from_str_print" => {
+            // after a text that is rejected half-way (nothing of it may be left for the next parse)
+            if b.len() % 3 == 1 {
+                let _ = guarded(|| Hex::from_str("CA-FE-ZZ").is_ok());
+                let _ = guarded(|| Hex::from_str("AB-C").is_ok());
+            }
             let r = guarded(|| Hex::from_str(&h.print()).map(|x| x == h && x.bytes() == b.as_slice()).map_err(|e| format!("{e}")));
             match r {
                 Ok(Ok(true)) => Ok(()),
